@@ -8,6 +8,7 @@ import (
 
 	"github.com/openbao/openbao/v2/internal/builtin/logical/kv"
 	"github.com/openbao/openbao/v2/internal/vault"
+	"github.com/openbao/openbao/v2/internal/vault/barrier"
 	"github.com/openbao/openbao/sdk/v2/logical"
 )
 
@@ -94,9 +95,32 @@ func runC12(rc *RunCtx) {
 	}
 	// team2/ is a sibling whose name has team/'s name as a string prefix: scope
 	// checks must compare whole path segments
+	// team/sub/ may have a seal of its own, nested inside sealable team/
+	nestedSeal := sealable && tp.Pick(2) == 1
+	rc.Cfg("nested_sealable_namespace", nestedSeal)
+	var subKeys []string
 	for _, n := range []struct{ ns, name string }{{"team/", "sub"}, {"", "other"}, {"", "team2"}} {
-		if r, err := rootDo(n.ns, "sys/namespaces/"+n.name, logical.UpdateOperation, nil); err != nil || (r != nil && r.IsError()) {
+		var d map[string]any
+		if nestedSeal && n.name == "sub" {
+			d = map[string]any{"seal": `seal "shamir" { shares = 1  threshold = 1 }`}
+		}
+		r, err := rootDo(n.ns, "sys/namespaces/"+n.name, logical.UpdateOperation, d)
+		if err != nil || (r != nil && r.IsError()) {
 			panic(fmt.Sprint("create ns: ", err))
+		}
+		if d != nil && r != nil {
+			switch ks := r.Data["key_shares"].(type) {
+			case []string:
+				subKeys = ks
+			case []any:
+				for _, v := range ks {
+					subKeys = append(subKeys, fmt.Sprint(v))
+				}
+			}
+			if len(subKeys) == 0 {
+				panic("nested sealable namespace returned no key shares")
+			}
+			rootDo("team/", "sys/namespaces/sub/unseal", logical.UpdateOperation, map[string]any{"key": subKeys[0]})
 		}
 	}
 	var mounts []*c12Mount
@@ -528,6 +552,40 @@ func runC12(rc *RunCtx) {
 				if strings.HasPrefix(o.ReqID, "sealed-") && nsPrefix != "" && strings.HasPrefix(o.Key, nsPrefix+"logical/") {
 					viol("sealed-namespace-storage-accessed", map[string]any{"op": o.Op}, "request %s did %s %q while team/ was sealed", o.ReqID, o.Op, o.Key)
 					return
+				}
+			}
+			// a namespace with its own seal nested in the sealed one: its barrier
+			// is sealed as well, holds no key material, and stays sealed when
+			// only the outer namespace is unsealed again
+			var subMount *c12Mount
+			for _, m := range mounts {
+				if m.ns == "team/sub/" && m.kind == "rec" {
+					subMount = m
+				}
+			}
+			if nestedSeal && subMount != nil {
+				sb := vault.VerifBarrierFor(h.Core, "team/sub/")
+				if sb == nil || sb == vault.VerifBarrier(h.Core) {
+					s.Probe("nested_barrier_not_found")
+				} else {
+					if !sb.Sealed() || barrier.VerifHoldsKeyMaterial(sb) {
+						viol("nested-namespace-barrier-not-sealed", map[string]any{"sealed": sb.Sealed(), "holds_keys": barrier.VerifHoldsKeyMaterial(sb)}, "team/ was sealed, the barrier of team/sub/ (own seal) is sealed=%v and holds key material=%v", sb.Sealed(), barrier.VerifHoldsKeyMaterial(sb))
+						return
+					}
+					if _, err := rootDo("", "sys/namespaces/team/unseal", logical.UpdateOperation, map[string]any{"key": teamKeys[0]}); err == nil {
+						r, err := h.Do("sealed", Req{Op: logical.ReadOperation, Path: "app/data/probe", Token: h.Root, NS: "team/sub/"})
+						if (err == nil && r != nil && !r.IsError() && len(r.Data) > 0) || !sb.Sealed() {
+							viol("nested-namespace-unsealed-without-its-shares", nil, "team/ was unsealed with its own share only; team/sub/ (own seal) serves data=%v, its barrier is sealed=%v", r != nil && len(r.Data) > 0, sb.Sealed())
+							return
+						}
+						rootDo("team/", "sys/namespaces/sub/unseal", logical.UpdateOperation, map[string]any{"key": subKeys[0]})
+						r, err = h.Do("unsealed", Req{Op: logical.ReadOperation, Path: "app/data/probe", Token: h.Root, NS: "team/sub/"})
+						if err != nil || !respHasCanary(r, subMount.canary) {
+							s.Probe("nested_data_unreadable_after_unseal")
+						} else {
+							s.Probe("nested_data_back_after_unseal")
+						}
+					}
 				}
 			}
 			// unseal and read again
